@@ -51,6 +51,22 @@ func (b *Bank) Clone() *Bank {
 	return n
 }
 
+// RestoreFrom puts b back into the state of o (a Clone taken earlier), in place.
+func (b *Bank) RestoreFrom(o *Bank) {
+	b.bal = map[string]math.Int{}
+	for k, v := range o.bal {
+		b.bal[k] = v
+	}
+	b.denoms = map[string][]string{}
+	for k, v := range o.denoms {
+		b.denoms[k] = append([]string(nil), v...)
+	}
+	b.Calls = append([]Call(nil), o.Calls...)
+	b.NCalls = o.NCalls
+	b.FailAt = o.FailAt
+	b.Failed = false
+}
+
 func (b *Bank) Get(addr sdk.AccAddress, denom string) math.Int {
 	v, ok := b.bal[addr.String()+"|"+denom]
 	if !ok {
